@@ -277,4 +277,25 @@ def runEntries (v : Bytes → Bool) (root : PPath) : List Entry → St → Step
 def buildIndexFromTree (v : Bytes → Bool) (root : PPath) (entries : List Entry) (fs : FS) : Step :=
   runEntries v root entries { fs := fs, log := [], safe := [] }
 
+/-! ### the delete phase of `update_working_tree` (non-directory case), as coded -/
+
+/-- One `CHANGE_DELETE` of `update_working_tree`: `if not validate_path(path): continue`; `os.lstat(full_path)`
+(FileNotFoundError: nothing to do); `_transition_to_absent` → `os.unlink(full_path)` for anything that is not a
+directory.  There is NO `verify_leading_dirs` here.  (The directory branch — listdir/rmdir/rmtree — and
+`_remove_empty_parents` are not modelled.) -/
+def deleteOld (v : Bytes → Bool) (root : PPath) (path : Bytes) (st : St) : Step :=
+  if validatePath v path = false then (st, none)
+  else
+    let comps := splitOn pathSep path
+    match lstat st.fs root comps with
+    | .error .enoent => (st, none)
+    | .error e => (st, some e)
+    | .ok .dir => (st, none)
+    | .ok _ => st.apply (sysUnlink st.fs root comps)
+
+/-- the delete phase over the deleted paths of the old tree, in order; stops at the first error -/
+def deletePhase (v : Bytes → Bool) (root : PPath) : List Bytes → St → Step
+  | [], st => (st, none)
+  | p :: ps, st => (deleteOld v root p st).andThen (deletePhase v root ps)
+
 end Dulwich.Checkout
